@@ -627,7 +627,16 @@ def rule_range_bounds(chk, fb, store, sets, orient, rid="C10.c.bound"):
             which = [s_ for s_ in sets if ("field", store, s_) in at0]
             if len(which) != 1 or len(t["args"]) < 2:
                 continue
-            consts = sorted(a[1] for a in fl.atoms(t["args"][1]) if a[0] == "const" and isinstance(a[1], int))
+            at1 = fl.atoms(t["args"][1])
+            consts = sorted(a[1] for a in at1 if a[0] == "const" and isinstance(a[1], int))
+            # the range may be built by a private helper of the store: its constants count
+            for a in at1:
+                if a[0] == "call" and a[1] in fb.mir and fb.mir[a[1]].get("self_ty") == store and "Range" in fb.ty(fb.mir[a[1]]["locals"][0]["t"]):
+                    hb = fb.mir[a[1]]
+                    hfl = Flow(fb, hb)
+                    consts += [x[1] for x in hfl.atoms(0) if x[0] == "const" and isinstance(x[1], int)]
+                    consts += [fb.consts[x[1]]["value"]["i"] for x in hfl.atoms(0) if x[0] == "const" and isinstance(x[1], str) and x[1] in fb.consts and "i" in fb.consts[x[1]].get("value", {})]
+            consts = sorted(consts)
             if not consts:
                 continue
             upper = consts[-1]
@@ -638,6 +647,74 @@ def rule_range_bounds(chk, fb, store, sets, orient, rid="C10.c.bound"):
             chk.ob(r, "%s:%s#%d" % (d.split("::")[-1], which[0], n), ok, where="%s:%s" % (b["file"], t.get("ln")),
                    detail="range query on %s (second component = %s): upper bound %s, needs >= %d" % (which[0], "row" if second_is_row else "column", upper, need))
             n += 1
+
+
+def rule_pair_lists(chk, fb, store, rid="C10.c.pairs"):
+    """Coordinates parked in a local list of pairs keep their axes: a pair pushed as (row getter, column getter) and taken
+    out again as (a, b) gives a = row, b = column; a store method called with them must receive the column where its
+    parameter is the column and the row where it is the row."""
+    import hirq
+
+    r = chk.rule(
+        rid,
+        "pairs keep their axes: where a function collects (column/row getter, column/row getter) pairs in a local list and later destructures the list's elements into the arguments of a store method, each argument's axis (from the getter it was pushed with) is the axis of the parameter it is passed to (from the parameter's name)",
+        floor=0,  # a function that collects in one place and consumes in another has no instance: nothing is claimed
+    )
+
+    def axis_of(e):
+        names = {y.get("name") for y in hirq.walk(e) if y.get("k") == "mcall"}
+        ax = {a for a in ("col", "row") if any(n and n.startswith("get_%s" % a) and n.endswith("num") for n in names)}
+        return next(iter(ax)) if len(ax) == 1 else None
+
+    for d, h in sorted(fb.hir.items()):
+        if h.get("self_ty") != "structs::worksheet::Worksheet" or h["file"].startswith("tests"):
+            continue
+        pushes = {}  # list lid -> (axis0, axis1)
+        for x in hirq.walk(h["body"]):
+            if x.get("k") == "mcall" and x.get("name") == "push" and x.get("args"):
+                rc = hirq.strip(x["recv"])
+                a0 = hirq.strip(x["args"][0])
+                if rc.get("k") == "path" and a0.get("k") == "tup" and len(a0.get("es", [])) == 2:
+                    ax = (axis_of(a0["es"][0]), axis_of(a0["es"][1]))
+                    if None not in ax:
+                        pushes.setdefault(rc.get("lid"), set()).add(ax)
+        if not pushes:
+            continue
+        for node, it, var, body in hirq.for_loops(h["body"]):
+            it_ = hirq.strip(it)
+            while it_.get("k") in ("ref",) or (it_.get("k") == "mcall" and it_.get("name") in ("iter", "into_iter", "drain")):
+                it_ = hirq.strip(it_.get("e") or it_.get("recv"))
+            if it_.get("k") != "path" or it_.get("lid") not in pushes or len(pushes[it_["lid"]]) != 1:
+                continue
+            ax = next(iter(pushes[it_["lid"]]))
+            v = var
+            while v.get("k") == "ref":
+                v = v["sub"]
+            if v.get("k") != "tuple" or len(v.get("subs", [])) != 2:
+                continue
+            binds = {}
+            for i, sub in enumerate(v["subs"]):
+                while sub.get("k") == "ref":
+                    sub = sub["sub"]
+                if sub.get("k") == "bind":
+                    binds[sub.get("lid")] = ax[i]
+            n = 0
+            for y in hirq.walk(body):
+                if y.get("k") == "mcall" and y.get("def", "").startswith(store + "::") and y.get("def") in fb.mir:
+                    cb = fb.mir[y["def"]]
+                    for i, a in enumerate(y.get("args", [])):
+                        a_ = hirq.strip(a)
+                        while a_.get("k") == "ref":
+                            a_ = hirq.strip(a_["e"])
+                        if a_.get("k") == "path" and a_.get("lid") in binds and i + 2 < len(cb["locals"]):
+                            pname = cb["locals"][i + 2].get("n") or ""
+                            want = "col" if "col" in pname else ("row" if "row" in pname else None)
+                            if want is None:
+                                continue
+                            chk.touch(d)
+                            chk.ob(r, "%s->%s:arg%d#%d" % (d.split("::")[-1], y["def"].split("::")[-1], i, n), binds[a_["lid"]] == want, where="%s:%s" % (h["file"], y.get("ln")),
+                                   detail="parameter `%s` of %s receives the component that was pushed from a %s getter" % (pname, y["def"].split("::")[-1], binds[a_["lid"]]))
+                    n += 1
 
 
 def rule_row_entry_removal(chk, fb, store, rid="C10.d.remove"):
@@ -694,6 +771,7 @@ def run(chk, fb, tier):
     rule_entry_keys(chk, fb, store, mapf)
     rule_extent_wrappers(chk, fb, store, sets)
     rule_row_entry_removal(chk, fb, store)
+    rule_pair_lists(chk, fb, store)
     rule_range_bounds(chk, fb, store, sets, orient)
     chk.assume("std HashMap / BTreeSet are correct; BTreeSet<(u32,u32)> iterates in lexicographic order")
     chk.note("not decided: agreement of all listings after arbitrary histories (follows from a-c only under the std-collections assumption)")
